@@ -144,8 +144,8 @@ def gen_tables(r, external=False, deep=False):
             if kind == 'S':
                 col['n'] = r.randint(1, 8) if not wide else r.randint(20, 60)
             arr = r.choice([0, 0, 0, 1, 2, 4]) if not wide else r.choice([12, 30, 64])
-            if arr and kind != 'E':
-                col['len'] = arr
+            if arr and (kind != 'E' or arr <= 4):
+                col['len'] = arr          # arrays of enum values are legal too
             cols.append(col)
         nrow = r.choice([0, 1, 1, 2, 3, 4])
         rows = [[rcell(r, c) for c in cols] for _ in range(nrow)]
